@@ -157,7 +157,7 @@ const POSITIONS: &[(&str, &str, char, char, bool)] = &[
 
 pub const MODES: &[&str] = &["exact", "coarse", "true", "batch", "single"];
 
-const WXS: &str = "<wxs module=\"m\">exports.f = function(a){ return 'f(' + a + ')' }; exports.j = function(a){ return JSON.stringify(a) }; exports.rev = function(a){ return a && a.slice ? a.slice().reverse() : a }; exports.wrap = function(a, b){ return {p: a, q: b} }; exports.pick = function(l, i){ return l[i] }; exports.pickf = function(n){ return n === 'x' ? exports.f : exports.j }</wxs>";
+const WXS: &str = "<wxs module=\"m\">exports.f = function(a){ return 'f(' + a + ')' }; exports.j = function(a){ return JSON.stringify(a) }; exports.rev = function(a){ return a && a.reverse ? a.slice().reverse() : a }; exports.wrap = function(a, b){ return {p: a, q: b} }; exports.pick = function(l, i){ return l[i] }; exports.pickf = function(n){ return n === 'x' ? exports.f : exports.j }</wxs>";
 
 fn leaf(id: &str) -> (Value, Value, Value) {
     let l = LEAVES.iter().find(|l| l.0 == id).unwrap_or_else(|| panic!("unknown leaf {}", id));
